@@ -5,7 +5,7 @@
 From Coq Require Import List ZArith Bool Lia Arith.
 Import ListNotations.
 From Goat Require Import Model.Client Model.Server Proofs.ServerProofs Proofs.ServerInv Proofs.ServerTrace
-  Model.Sys Proofs.SysLog Proofs.SysProofs Proofs.SysFacts Proofs.SysFacts2 Proofs.SysC02b Proofs.SysC02c.
+  Model.Sys Proofs.SysLog Proofs.SysProofs Proofs.SysFacts Proofs.SysFacts2.
 Open Scope Z_scope.
 
 Definition okshape (fr : frame) : Prop :=
